@@ -320,7 +320,7 @@ int main(int argc, char** argv) {
             if (rot == 2 || rot == 3 || rot == 5) continue;            // quick: rotations {0, pi/2, 0.5}
             if (mag != (org ? 1 : 0)) continue;                       // magnification tied to origin
             if (rep == REP_EXPLICIT_Y || rep == REP_REGULAR || rep >= REP_REGULAR_1COL) continue;  // quick: none, rect, explicit, explicit_x
-        } else if (org == 0 && mag == 1) continue;                    // thorough: 3 of the 4 origin/magnification pairs
+        } else if (org != mag || rot == 3) continue;                  // thorough: magnification tied to origin, rotations {0, pi/2, pi, 0.5, pi/4} (the full product does not fit the 40 min budget)
         specs.push_back({rot, refl, mag, org, rep});
     }
     std::vector<CaseId> cases;
